@@ -578,7 +578,7 @@ def coverage_run(chk, tables):
 def design_run(chk, tables):
     """Design level only (nothing emitted): the fragmenting machine against Decode for longer texts over the
     full alphabet."""
-    res = vlib.tlc("search/MCTranscode", "C17_design", workers=12, timeout=3000, env={"C17_TABLES": tables})
+    res = vlib.tlc("search/MCTranscode", "C17_design", workers=12, timeout=7200, env={"C17_TABLES": tables})
     if res.rc != 0:
         raise vlib.ToolError("Transcode design invariant failed in C17_design:\n" + res.tail(60))
     chk.add_tlc(res)
@@ -613,8 +613,8 @@ def main(tier):
         else:
             mutant_must_fail(tables)
             design_run(chk, tables)
-            explore(chk, rep, "C17_frag", tables, timeout=3000, rg_limit=0)
-            explore(chk, rep, "C17_deep", tables, timeout=3000, rg_limit=60000)
+            explore(chk, rep, "C17_frag", tables, timeout=7200, rg_limit=0)
+            explore(chk, rep, "C17_deep", tables, timeout=7200, rg_limit=60000)
     finally:
         try:
             os.remove(tables)
